@@ -1,8 +1,9 @@
 // drv_forces: one internal force term at a time (or all) on a real cell.
-// line: <tissue case with ONE cell> F term P NF {face type id}
+// line: <tissue case with ONE cell> F term P NF {face type id} PRE k seed   (k random edge merges/splits first: leaves unused slots)
 //   term 0 pressure, 1 tension+elasticity, 2 bending, 3 angle regularisation, 4 apply_internal_forces(dt)
 // out : OK P V A | nodes {used x y z} | faces {a b c type} | edges {n1 n2 f1 f2} | forces {fx fy fz}
 #include "tissue.hpp"
+#include "local_mesh_refiner.hpp"
 class cell_tester {
 public:
     static void set_types(cell_ptr c, const std::vector<int>& ty){ for (size_t i=0;i<ty.size() && i<c->face_lst_.size();i++) c->face_lst_[i].type_id_ = (unsigned short)ty[i]; }
@@ -32,12 +33,22 @@ int main(){
             cell_ptr c = make_cell(t.meshes[0], 0u, t.types[t.cell_type_index[0]]);
             c->initialize_cell_properties();
             cell_tester::set_types(c, ty);
+            std::string pre; int npre = 0; unsigned long seed = 0; in >> pre >> npre >> seed;
+            if (npre > 0){
+                local_mesh_refiner lmr(1e-30, 1e30, false);
+                unsigned long st = seed * 6364136223846793005ULL + 1442695040888963407ULL;
+                for (int k = 0; k < npre; k++){
+                    st = st * 6364136223846793005ULL + 1442695040888963407ULL;
+                    const edge_set& es = c->get_edge_set(); auto it = es.begin(); std::advance(it, (st >> 33) % es.size()); edge e = *it; edge_set work = es;
+                    if (((st >> 20) & 3) != 0 && lmr.can_be_merged(e, c)) lmr.merge_edge(e, c, work); else lmr.split_edge(e, c, work);
+                }
+            }
             cell_tester::prepare(c, P);
             cell_tester::term(c, term, t.sp.time_step_);
             std::cout << "OK " << hx(c->get_pressure()) << " " << hx(c->get_volume()) << " " << hx(c->get_area()) << " |";
             for (const node& n : c->get_node_lst()) std::cout << " " << (n.is_used()?1:0) << " " << hx(n.pos().dx()) << " " << hx(n.pos().dy()) << " " << hx(n.pos().dz());
             std::cout << " |";
-            for (const face& f : c->get_face_lst()){ auto [a,b,d] = f.get_node_ids(); std::cout << " " << a << " " << b << " " << d << " " << cell_tester::type_of(f); }
+            for (const face& f : c->get_face_lst()){ if (f.is_used()){ auto [a,b,d] = f.get_node_ids(); std::cout << " " << a << " " << b << " " << d << " " << cell_tester::type_of(f); } else std::cout << " 0 0 0 -1"; }
             std::cout << " |";
             for (const edge& e : c->get_edge_set()) std::cout << " " << e.n1() << " " << e.n2() << " " << e.f1() << " " << e.f2();
             std::cout << " |";
